@@ -28,6 +28,7 @@ import M4riProofs.Top
 import M4riProofs.EchelonTop
 import M4riProofs.GenTie
 import M4riProofs.GenTieGlue
+import M4riProofs.GenTieKer
 namespace M4ri.Props.C05
 open M4ri M4ri.BMat
 
@@ -119,5 +120,14 @@ theorem tri_inverse_value {U : BMat} (hU : U.WF) (hsq : U.ncols = U.nrows) (hut 
 #check @M4ri.GenTieGlue.trtriSplit_lt
 #check @M4ri.GenTieGlue.trtriRec_succ_of_regime
 #check @M4ri.GenTieGlue.regime_overflow
+
+
+/-! ### tie to the C text: the COMPLETE C function `mzd_inv_m4ri` for a supplied destination: the work matrix it builds is exactly `invInput`, the
+    elimination gets full = 1 and the LITERAL k = 0 (the function ignores its own k), the right block is copied out; with the model M4RI
+    elimination it equals the model `invM4ri` (GenTieKer.lean) -/
+#check @M4ri.GenTieKer.invM4ri_eq
+#check @M4ri.GenTieKer.invM4ri_entries
+#check @M4ri.GenTieKer.invM4ri_model_eq
+#check @M4ri.GenTieKer.mzdCopy_eq
 
 end M4ri.Props.C05
